@@ -284,12 +284,16 @@ func TestVerifC08Trace(t *testing.T) {
 	for i := range progs {
 		p := &progs[i]
 
+		if p.RaceOnly {
+			continue
+		}
+
 		for _, procs := range c08Procs {
 			salt := uint64(verifh.Seed())*6007 + uint64(procs)*31
 			runtime.GOMAXPROCS(procs)
 			c08Marker(prog, p, procs, salt, "trace")
 			c08SetYield(salt, 5)
-			out, err := c08Run(p.Src, c08TraceOn)
+			out, err := c08Run(p, c08TraceOn)
 			ev := c08TraceOff()
 
 			c08SetYield(0, 0)
@@ -304,7 +308,14 @@ func TestVerifC08Trace(t *testing.T) {
 			if err != nil || out != p.Want {
 				cls = c08MismatchClass(p)
 			} else if verdict != "ok" {
+				// the class follows the rule the first offending event breaks
 				cls = "unlocked-concurrent-table-access"
+
+				var bad int
+				if _, e := fmt.Sscanf(verdict, "bad %d", &bad); e == nil && bad < len(canon) && canon[bad].Kind == 'f' {
+					cls = "captured-chain-table-unshared-at-fork"
+				}
+
 				if p.Escape {
 					cls = "escaping-closure"
 				}
@@ -312,11 +323,11 @@ func TestVerifC08Trace(t *testing.T) {
 
 			if cls != "" {
 				fails.Write(verifh.Failure{Class: cls,
-					What:  fmt.Sprintf("program %s GOMAXPROCS=%d salt=%d: trace %s", p.ID, procs, salt, verdict),
+					What:  fmt.Sprintf("program %s deep.scope=%v GOMAXPROCS=%d salt=%d: trace %s", p.ID, p.Deep, procs, salt, verdict),
 					Input: p.Src, Got: fmt.Sprintf("%q err=%v verdict=%s", out, err, verdict), Want: fmt.Sprintf("%q ok", p.Want)})
 			}
 
-			if len(canon) <= 6000 {
+			if len(canon) <= 16000 { // the Lean checker needs about 1.2 s for 16000 events
 				cases.Write(verifh.Case{In: text, Impl: verdict, Desc: fmt.Sprintf("%s p%d", p.ID, procs)})
 			} else {
 				stats.Inc("trace_too_long_for_lean")
